@@ -360,7 +360,7 @@ impl Check for C01 {
                         c[ctx.rng.below(c.len())].clone()
                     } else {
                         let ty = STRUCT_TYPES[ctx.rng.below(16)];
-                        let v = gen::gen_mval(&mut ctx.rng, ty, &GenOpts { styled_prot: 128, built: false, max_depth: 3 });
+                        let v = gen::gen_mval(&mut ctx.rng, ty, &GenOpts { styled_prot: 128, built: false, max_depth: 3, mixed: false });
                         rcbor::encode(&model::encode(&v), &mut Style::random(ctx.rng.next()))
                     };
                     let other = c[ctx.rng.below(c.len())].clone();
@@ -386,7 +386,7 @@ impl Check for C01 {
                 let mut reqs = Vec::new();
                 for _ in 0..128 {
                     let ty = STRUCT_TYPES[ctx.rng.below(16)];
-                    let v = gen::gen_mval(&mut ctx.rng, ty, &GenOpts { styled_prot: 128, built: false, max_depth: 3 });
+                    let v = gen::gen_mval(&mut ctx.rng, ty, &GenOpts { styled_prot: 128, built: false, max_depth: 3, mixed: false });
                     let mut it = model::encode(&v);
                     for _ in 0..ctx.rng.below(3) {
                         it = gen::mutate_item(&mut ctx.rng, &it);
